@@ -31,7 +31,7 @@ P = 'circus.process:Process.'
 
 
 def check(run, ctx):
-    run.each(ctx, [r1, r2, r3, r4, r5, r6, r7, r8])
+    run.each(ctx, [r1, r2, r3, r4, r5, r6, r7, r8, r9])
 
 
 def _event_dict(node, topic):
@@ -437,3 +437,63 @@ def r8(run, ctx):
     run.share(ctx, c04.r3, 'R3', 'R8', 'the periodic zombie sweep hands every collected status '
               'to the watcher that owns the pid (shared with C04 R3): otherwise the death is '
               'never announced by a reap event')
+
+
+# Who may collect a child's exit status.  A collected child is invisible to the arbiter's
+# waitpid(-1) sweep, the only place where a worker that died by itself gets its reap event.
+COLLECT_WRAPPERS = {           # calling these IS collecting
+    'circus.process:Process.poll': 'thin wrapper of Popen.poll',
+    'circus.process:Process.is_alive': 'poll() is None',
+    'circus.process:Process.wait': 'thin wrapper of Popen.wait (library API, no caller in circus)',
+}
+COLLECT_OWNERS = {             # may collect; their callers are not tainted
+    'circus.process:Process.stop': 'last step of a termination, followed by the reap of the caller',
+    'circus.watcher:Watcher.kill_process': 'termination routine: every caller reaps or drops '
+                                           'the worker with a kill/reap event (C04 R2, C09 R2)',
+    'circus.watcher:Watcher.reap_process': 'publishes the reap event itself',
+    'circus.arbiter:Arbiter.reap_processes': 'the sweep: hands each status to reap_process',
+}
+_POPEN_COLLECTORS = ('poll', 'wait', 'communicate')
+_OS_COLLECTORS = ('os.waitpid', 'os.wait', 'os.wait3', 'os.wait4', 'os.waitid')
+
+
+def _collector_calls(ctx, f):
+    out = []
+    for node in ctx.live_nodes(f):
+        for c in node.calls():
+            d = dotted(c.func) or ''
+            if d in _OS_COLLECTORS:
+                out.append((node, c, d))
+            elif isinstance(c.func, ast.Attribute) and c.func.attr in _POPEN_COLLECTORS and \
+                    '_worker' in norm_text(c.func.value):
+                out.append((node, c, 'Popen.%s' % c.func.attr))
+    for s in ctx.sites(f):
+        if s.kind == 'call' and any(t.key in COLLECT_WRAPPERS for t in s.targets):
+            out.append((s.node, s.call, [t.qualname for t in s.targets
+                                         if t.key in COLLECT_WRAPPERS][0]))
+    return out
+
+
+def r9(run, ctx):
+    run.rule('R9', "a child's exit status is collected only by the termination and reap routines")
+    n = owners = 0
+    for f in ctx.p.all_functions():
+        if not f.key.startswith('circus.') or f.key.startswith('circus.tests'):
+            continue
+        calls = _collector_calls(ctx, f)
+        if not calls:
+            continue
+        n += len(calls)
+        allowed = f.key in COLLECT_WRAPPERS or f.key in COLLECT_OWNERS
+        owners += allowed
+        for node, c, what in calls:
+            run.check('R9', allowed, '%s may collect a child (%s)' % (
+                f.qualname, COLLECT_WRAPPERS.get(f.key) or COLLECT_OWNERS.get(f.key)),
+                f, node.ast,
+                '%s collects the exit status of a worker (%s) although it is neither a '
+                'termination nor a reap routine: a worker that died by itself is then no longer '
+                'seen by the arbiter\'s waitpid sweep, is dropped from the table without a reap '
+                'event, and a subscriber keeps it in its live set for ever' % (f.qualname, what),
+                construct='collects a child outside the reap routines')
+    run.count('R9', n, 5, 'calls that collect a child')
+    run.count('R9', owners, 5, 'functions that may collect a child')
